@@ -484,3 +484,13 @@ Proof.
     destruct IH as (-> & IH). auto.
 Qed.
 
+
+Definition store_of (r : option (node * gstate)) : list triple :=
+  match r with Some (_, s) => g_tr s | None => [] end.
+
+Lemma same_outcome_store r r' : same_outcome r r' -> seteq (store_of r) (store_of r').
+Proof.
+  unfold same_outcome, store_of. destruct r as [[n s]|], r' as [[n' s']|]; try contradiction.
+  - intros (_ & _ & _ & H). exact H.
+  - intros _. apply seteq_refl.
+Qed.
